@@ -436,6 +436,11 @@ func (sc *StateContext) InsertTrieNode(key datastore.Key, node util.MPTSerializa
 	vn, ok := statecache.Cacheable(node)
 	if ok {
 		sc.Cache().Set(key, vn)
+	} else {
+		// a value that cannot be cached replaces whatever the cache holds for this key (the same key can be
+		// written with another type, e.g. "provider:<id>" by two smart contracts); otherwise readers keep
+		// being served the old value while the trie holds the new one
+		sc.Cache().Remove(key)
 	}
 	verifObsInsert(sc, key, node)
 
